@@ -54,9 +54,9 @@ CHECKS = {
     "C15": ("exhaustive enumeration of API functions x argument alphabet x backing-array layouts with whole-buffer snapshots",
             "Every exported function with a byte-slice parameter x argument values x 40 layouts (offset, spare capacity, clipped/open capacity, two complementary fills): whole backing array unchanged; slice results fresh (no shared memory, overwrite over full capacity harmless); pointer operands bit-identical; globals unchanged (also against a baseline taken before the first call into the library). On the instrumented build the invariant 'all shared memory equals its snapshot' is evaluated at every function entry of every operation of the concurrency alphabet, so writes that are undone before the call returns are seen. A hostile-caller prelude overwrites every returned slice and mutates every returned object before the checks run. The function table is compared with the exported API parsed from the current tree.",
             "covers the listed layouts and values; writes of an identical value are caught by the complementary fill", "4/C15", MC),
-    "C16": ("stateless model checking: own cooperative scheduler with preemption-bounded DFS over all interleavings at function-entry granularity + footprint enumeration + separate free-running -race pass",
+    "C16": ("stateless model checking: own cooperative scheduler with preemption-bounded DFS over all interleavings at function-entry granularity - and, on trees whose library code synchronises, at every sync / atomic / channel operation and goroutine start, with blocking and deadlock modelled - + footprint enumeration + separate free-running -race pass",
             "All ordered pairs of a 32-operation alphabet (plus 3-thread and 2-ops-per-thread scenarios) on shared arguments with overlapping slices, incl. operations that overwrite the slices they were handed back: every schedule within the preemption bound (2 for short and medium operations, 1 for huge ones; thorough: 3 on a sub-alphabet, and every-function-entry granularity for medium operations) is executed on the instrumented build; every call must return what it returns alone, shared arguments and package-level variables unchanged; schedules are replayed for reproducibility. Accesses between scheduling points are covered by the happens-before race detector in a separate free-running pass over the same bodies, which also runs every pair (a,a), (a,a+1) as the very first use of the library in a fresh process (lazy initialisation). Footprint and watch parts evaluate 'no shared byte, no package-level variable written' after and during every operation.",
-            "scheduling points are function entries, not individual memory accesses; memory-model effects below the Go memory model are out of scope", "4/C16", MC),
+            "scheduling points are function entries and synchronisation operations, not individual memory accesses; select statements and range-over-channel loops of a changed tree are not owned (watchdog, exhaustive:false); memory-model effects below the Go memory model are out of scope", "4/C16", MC),
     "C17": ("enumeration of program configurations as plain binaries (3-class abstraction of all importing programs)",
             "Seven plain (non-test) programs are built against the current tree in an external module and each calls the three hashing functions; exit status 0 and oracle bytes expected: five link sets (registration of hashes is monotone in the link set, so the minimal program is the worst case) and two programs that register their own conformant-but-adversarial SHA-256 (only hash.Hash, Sum allocating, Write split) before resp. after the library's initialisation.",
             "abstraction argument: the property depends on the program only through crypto's hash registry", "4/C17", "exploration"),
@@ -70,6 +70,9 @@ CHECKS = {
 
 NOT_YET = {}
 
+# properties with a fault-history part (harness/checks/faulthist.go)
+FAULT = {"C01", "C02", "C03", "C04", "C05", "C06", "C07", "C08", "C09", "C10", "C11", "C13", "C14", "C15", "C18"}
+
 ALL = ["C%02d" % i for i in range(1, 20)]
 
 
@@ -79,6 +82,11 @@ def main():
         if pid not in CHECKS:
             continue
         tech, text, note, ref, cat = CHECKS[pid]
+        if pid in FAULT:
+            text += (" Fault histories (one goroutine per process): every sequence call / failing-or-unusual call / call "
+                     "over a catalogue of concrete API calls incl. malformed inputs, recovered panics, nil receivers and "
+                     "failing entropy; the last call's observation must be the model's whatever preceded it (thorough: "
+                     "two failing calls in between).")
         checks.append({
             "property_id": pid,
             "quick_cmd": "bin/check %s --tier quick" % pid,
